@@ -5,7 +5,7 @@ from ..mir import switch_conds, cmp_true_false_edges, try_edges
 from ..dataflow import call_of, cond_at, field_sources, forward_flow, message_creations
 from ..guards import resolve
 from ..effects import fn_effects
-from .common import storage_calls, arg_origins, ok_value_blocks, must_pass_through
+from .common import storage_calls, arg_origins, ok_value_blocks, must_pass_through, scope_calls, scope_origins, scope_attached
 from .C12 import check_messages_attached
 
 EXPLANATION = """
@@ -124,14 +124,14 @@ def check_claim(ctx, model):
                "saved epoch.available depends on checked_sub: %s; saved epoch.claimed depends on the reward: %s" % (
                    any(o.kind == "call" and o.a.endswith("checked_sub") for o in av), any(o.kind == "call" for o in cl)), v.where(sb))
     # payout
-    pay = v.calls_to(r"Asset::into_msg$")
-    for b, t in pay:
-        rec = arg_origins(v, b, t, 1)
-        src = arg_origins(v, b, t, 0, taint=True)
-        tainted, sinks, ret = forward_flow(v, [t["dest"]["l"]])
+    pay = scope_calls(model, CLAIM, r"Asset::into_msg$")
+    for pv, chain, b, t in pay:
+        rec = scope_origins(model, chain, pv, t["args"][1], pv.at_term(b))
+        src = scope_origins(model, chain, pv, t["args"][0], pv.at_term(b), taint=True)
+        attached = scope_attached(model, chain, pv, t["dest"]["l"])
         ok = bool(rec) and all(o.kind == "param" and tuple(o.proj) == ("sender",) for o in rec) and any(
-            o.kind == "call" and o.a.endswith("asset::aggregate_assets") for o in src) and bool(sinks)
-        ctx.ob("C09-D1", "%s|payout" % CLAIM, ok, "payout of the aggregated rewards to %s, attached: %s" % (sorted(map(repr, rec)), bool(sinks)), v.where(b))
+            o.kind == "call" and o.a.endswith("asset::aggregate_assets") for o in src) and attached
+        ctx.ob("C09-D1", "%s|payout" % CLAIM, ok, "payout of the aggregated rewards to %s, attached: %s" % (sorted(map(repr, rec)), attached), pv.where(b))
     if not pay:
         ctx.ob("C09-D1", "%s|payout" % CLAIM, False, "no payout message built", v.where())
     for b, t in v.calls_to(r"asset::aggregate_assets$"):
@@ -425,7 +425,12 @@ def check_window_selection(ctx, model):
         ctx.ob("C09-D5", "%s|newest-first-window" % v.path, desc and take, "range(.., Descending): %s; take(CONFIG.grace_period): %s" % (desc, take), v.where())
     # len == grace_period decides whether something expires
     ok = False
-    for bb, c, _ in switch_conds(a):
+    from ..mir import resolve_bool
+    conds = [c for bb, c, _ in switch_conds(a)]
+    # `(len == grace_period).then(|| ..)` decides the same thing without a branch in this function
+    for bb, t in a.calls_to(r"^std::bool::then(_some)?$"):
+        conds.append(resolve_bool(a, t["args"][0], at=a.at_term(bb)))
+    for c in conds:
         if c.kind == "cmp" and c.op in ("==", "!="):
             at = (c.site[1], c.site[2]) if c.site[0] == "s" else a.at_term(c.site[1])
             oa = a.origins_of_operand(c.a, at=at, taint=True)
